@@ -252,7 +252,7 @@ def worker(k: int, n: int, depth: int) -> Part:
 
 
 def run(ctx: Ctx) -> None:
-    depth = 5 if ctx.thorough else 4
+    depth = (5 if ctx.thorough else 4) + int(__import__("os").environ.get("VF_DEEPER", 0))
     ctx.rule = (
         f"real ExposeSensor + TaskRegistry + TelegramQueue on the virtual loop, {len(CONFIGS)} configurations (cooldown, periodic_send, type) {CONFIGS}: ALL event sequences of length <= {depth} over {EVENTS} "
         f"(set / set with skip_unchanged of two values, GroupValueRead, initialize_value, a foreign write to the address, connection changes, time), then {HORIZON} s of timers. The interface log of value "
